@@ -1,10 +1,67 @@
-import PromModel.Tsdb.ChunkXor
+import PromProofs.ChunkXorSim
 /-
-  C10 — Float chunks return exactly what was appended.
+  C10 — Float chunks return exactly what was appended (classic XOR chunk, `tsdb/chunkenc/xor.go`,
+  `bstream.go`, `varbit.go`).  Property theorems only; lemmas live in `PromProofs/`.
+
+  Model: `PromModel/Prelude/Bits.lean`, `PromModel/Tsdb/VarbitInt.lean`, `PromModel/Tsdb/ChunkXor.lean`.
+  Timestamps are `Int` in the int64 range, values are 64-bit patterns (`Nat < 2^64`, never `Float`).
 -/
 namespace Prom.C10
 open Prom.Bits Prom.Varbit Prom.ChunkXor
 
-theorem bitRange_14_edge : bitRange 8192 14 = true ∧ bitRange (-8192) 14 = false := by decide
+/-- `readBits n` right after `writeBits v n` returns the `n` low bits of `v` and leaves the rest untouched. -/
+theorem bits_roundtrip (s rest : Bits) (v n : Nat) :
+    readBits n (natToBits v n ++ rest) = some (v % 2 ^ n, rest) ∧
+    writeBits s v n = s ++ natToBits v n :=
+  ⟨readBits_natToBits v n rest, rfl⟩
+
+example : readBits 14 (natToBits 0x3fff 14 ++ [true]) = some (0x3fff, [true]) := by
+  simpa using readBits_natToBits 0x3fff 14 [true]
+
+/-- Packing the stream into bytes and unpacking gives the stream back plus < 8 zero padding bits. -/
+theorem bytes_roundtrip (bs : Bits) :
+    fromBytes (toBytes bs) = bs ++ List.replicate (padLen bs.length) false ∧ padLen bs.length < 8 :=
+  ⟨fromBytes_toBytes bs, padLen_lt _⟩
+
+/-- `readVarbitInt` inverts `putVarbitInt` for every int64, whatever follows in the stream. -/
+theorem varbit_roundtrip (v : Int) (rest : Bits) (hv : I64 v) :
+    readVarbitInt (putVarbitInt v ++ rest) = some (v, rest) :=
+  readVarbitInt_put v rest hv
+
+example : I64 (-9223372036854775808) ∧ I64 9223372036854775807 ∧ I64 (-255) := by decide
+
+/-- `readVarbitUint` inverts `putVarbitUint` for every uint64. -/
+theorem varbit_uint_roundtrip (v : Nat) (rest : Bits) (hv : v < 2 ^ 64) :
+    readVarbitUint (putVarbitUint v ++ rest) = some (v, rest) :=
+  readVarbitUint_put v rest hv
+
+/-- Go's varints as written through the bit stream. -/
+theorem varint_roundtrip (t : Int) (rest : Bits) (ht : I64 t) :
+    readVarint true (putVarint t ++ rest) = some (t, rest) :=
+  readVarint_put true t rest ht
+
+/-- Well-formed input: int64 timestamps, 64-bit value patterns. No ordering hypothesis. -/
+def WF (ss : List Sample) : Prop := ∀ s ∈ ss, I64 s.1 ∧ s.2 < 2 ^ 64
+
+/--
+  The main clause: iterating the bytes of a classic XOR chunk returns exactly the appended
+  `(timestamp, value bits)` sequence, without error — for ALL int64 timestamp sequences (no monotonicity
+  needed: the encoding is exact modulo 2^64, which covers the statement's ±2^62 window with any deltas)
+  and all 64-bit value patterns (NaN payloads, stale marker, ±0, ±Inf are just bit patterns), up to the
+  chunk's capacity.
+-/
+theorem xor_roundtrip (ss : List Sample) (hlen : ss.length ≤ 65535) (hwf : WF ss) :
+    decodeChunk (chunkBytes ss.length (encode ss)) = (ss, true) := by
+  obtain ⟨d', hd, _⟩ := decodeFrom_encodeFrom ss 0 encInit decInit
+    (List.replicate (padLen (encode ss).length) false) StRel_init hwf
+  have hn : ss.length / 256 % 256 * 256 + ss.length % 256 = ss.length := by omega
+  simp only [decodeChunk, chunkBytes, hn, fromBytes_toBytes, padTo8]
+  simp only [encode] at hd ⊢
+  rw [hd]
+
+example : WF [(1000, 0x7ff0000000000002), (-5, 0), (9223372036854775807, 0xffffffffffffffff)] := by
+  intro s hs
+  simp only [List.mem_cons, List.mem_nil_iff, or_false] at hs
+  rcases hs with rfl | rfl | rfl <;> decide
 
 end Prom.C10
